@@ -16,7 +16,8 @@ CASES_PER_FILE = 60
 CASE_FILE_BYTES = 120000
 TIERS = {"quick": {"n": 1400}, "thorough": {"n": 16000, "exhaustive": True}}
 RULE = ("EXHAUSTIVE part: all histories of length <= 2 (quick, 600) / <= 3 (thorough, 14 424) over a fixed alphabet of 24 "
-        "core mutator calls on two keys and two values, each followed by items/reversed/counts/len/copy.copy/== ; "
+        "core mutator calls on two keys and two values, each followed by items/reversed/counts/len/copy.copy/== ; plus the "
+        "864-case drain grid (4 prefixes x 8 ways of removing a key x 9 probes x 3 second probes); "
         "RANDOM part (n cases): class under test OrderedMultiDict (3/4) or its subclass urlutils.QueryParamDict (1/4); histories of 1-40 (thorough: 1-70) public operations over two live OrderedMultiDicts, 2-5 key tokens and "
         "3-6 value tokens (20 hashable objects of varied types + an unhashable list and dict as values), arguments rotated over list/tuple/generator/iterator/list-of-lists, dict/OrderedDict/"
         "mappingproxy/keys()+__getitem__ object, the other OMD, the object itself, kwargs; returned and passed "
@@ -237,6 +238,18 @@ def _gen_case(rng, tier):
             n = rng.choice(BAD)
         else:
             n = rng.choice(READS + ["eq", "eq", "items", "get", "getitem", "or"])
+        if n in ("poplast", "pop", "popitem") and rng.random() < 0.3:
+            # drain burst: the same removal repeated on one key, with and without default
+            kk = K()
+            for _ in range(rng.randint(2, 4)):
+                b = {"r": r, "op": n, "snap": True, "mut": rng.random() < 0.7}
+                if n == "poplast":
+                    b.update(k=rng.choice([kk, kk, None]), d=D())
+                elif n == "pop":
+                    b.update(k=kk, d=D(), kwd=rng.random() < 0.4)
+                _shadow(regs, r, b)
+                ops.append(b)
+            continue
         op = {"r": r, "op": n}
         if n in ("add", "setitem"):
             op.update(k=K(), v=V())
@@ -384,11 +397,41 @@ def grid(maxlen):
             yield {"cls": "OMD", "grid": list(combo), "ops": copy.deepcopy([alpha[i] for i in combo] + tail)}
 
 
+def drain_grid():
+    """prefix x removal x probe (x second probe): what is left behind by one way of emptying a key must not
+    disturb any later operation on that (now absent or shorter) key"""
+    import copy
+    a, b, x, y = 1, 5, 10, 13
+
+    def op(name, **kw):
+        d = {"r": 0, "op": name, "snap": True, "mut": True}
+        d.update(kw)
+        return d
+    prefixes = [[op("add", k=a, v=x)], [op("add", k=a, v=x), op("add", k=a, v=y)],
+                [op("add", k=a, v=x), op("add", k=b, v=x)], [op("add", k=b, v=y), op("addlist", k=a, vs=[x, y, x], it="gen")]]
+    removals = [op("pop", k=a, d=None), op("popall", k=a, d=None), op("delitem", k=a), op("poplast", k=a, d=None),
+                op("poplast", k=None, d=None), op("popitem"), op("setitem", k=a, v=y),
+                op("update", a=["pairs", [[a, y]], "iter"], kw=[])]
+    probes = [op("poplast", k=a, d=None), op("poplast", k=a, d=y), op("poplast", k=None, d=y), op("pop", k=a, d=x),
+              op("popall", k=a, d=None), op("popitem"), op("delitem", k=a), op("add", k=a, v=x),
+              op("setdefault", k=a, d=None)]
+    tail = _grid_tail()
+    tail[-2]["snap"] = True
+    for i, p in enumerate(prefixes):
+        for j, r in enumerate(removals):
+            for k, q in enumerate(probes):
+                for k2, q2 in enumerate(probes[:3]):
+                    yield {"cls": "OMD", "grid": ["drain", i, j, k, k2],
+                           "ops": copy.deepcopy(p + [r, q, q2] + tail)}
+
+
 GRID_LEN = {"quick": 2, "thorough": 3}
 
 
 def generate(rng, tier, n):
     for c in grid(GRID_LEN[tier]):
+        yield c
+    for c in drain_grid():
         yield c
     for _ in range(n):
         yield _gen_case(rng, tier)
